@@ -552,7 +552,7 @@ package secp256k1
 //@ define mapc(u) = ptf(iso_x(sswu_x(u)), iso_y(sswu_x(u), sswu_y(u)), iso_z(sswu_x(u)))
 //@ define h2f(m, d, n, k) = fofint(os2ip(strcells(xmd(m, d, n), 48*k, 48)))
 //@ lemma chord_on_curve(x2, y2, x1, y1) {lean: Secp.chord_on_curve}: imp(onE3(x2, y2) && onE3(x1, y1) && x1 != x2, onE3(chord_x(x2, y2, x1, y1), chord_y(x2, y2, x1, y1)))
-//@ lemma iso_hom_chord(x2, y2, x1, y1) {lean: ASSUMED (RFC 9380 6.6.3: iso_map is a group homomorphism)}: imp(onE3(x2, y2) && onE3(x1, y1) && x1 != x2, ptf(iso_x(chord_x(x2, y2, x1, y1)), iso_y(chord_x(x2, y2, x1, y1), chord_y(x2, y2, x1, y1)), iso_z(chord_x(x2, y2, x1, y1))) == gadd(ptf(iso_x(x2), iso_y(x2, y2), iso_z(x2)), ptf(iso_x(x1), iso_y(x1, y1), iso_z(x1))))
+//@ lemma iso_hom_chord(x2, y2, x1, y1) {lean: SecpSMT.iso_hom_chord}: imp(onE3(x2, y2) && onE3(x1, y1) && x1 != x2, ptf(iso_x(chord_x(x2, y2, x1, y1)), iso_y(chord_x(x2, y2, x1, y1), chord_y(x2, y2, x1, y1)), iso_z(chord_x(x2, y2, x1, y1))) == gadd(ptf(iso_x(x2), iso_y(x2, y2), iso_z(x2)), ptf(iso_x(x1), iso_y(x1, y1), iso_z(x1))))
 //@ assume hash_no_x_collision: HashToGroup's affine addition on E' is not complete; the two SSWU outputs are assumed to have different x (probability about 2^-255 per call; no (msg, DST) reaching it can be exhibited)
 
 //@ func Element.addAffine3Iso2
